@@ -337,6 +337,25 @@ pub fn gen_world(rng: &mut Rng, o: &GenOpts) -> CliWorld {
     };
     files.push(f);
   }
+  // suppression comments that name a rule get the id of a rule that exists in this project
+  // (so that "used" and "unused" suppressions of specific rules both occur)
+  for f in files.iter_mut() {
+    if f.kind != "normal" || !f.text.contains("ast-grep-ignore: no-console") {
+      continue;
+    }
+    let ext = f.path.rsplit('.').next().unwrap_or("").to_string();
+    let lang = CORPORA.iter().find(|c| c.ext == ext).map(|c| c.lang).unwrap_or("");
+    let ids: Vec<String> = rule_dirs
+      .iter()
+      .flat_map(|d| d.files.iter().flat_map(|x| x.docs.iter()))
+      .filter(|r| r.language == lang && (r.rule.contains("console.log") || rng.chance(0.1)))
+      .map(|r| r.id.clone())
+      .collect();
+    if !ids.is_empty() && rng.chance(0.8) {
+      let id = rng.pick(&ids).clone();
+      f.text = f.text.replace("ast-grep-ignore: no-console", &format!("ast-grep-ignore: {id}"));
+    }
+  }
   if rng.chance(0.1) {
     files.push(SrcFile { path: "notes.txt".into(), text: "console.log(1)\n".into(), hex: None, kind: "normal".into() });
   }
